@@ -242,6 +242,17 @@ def gen_test(rng, nlayers, rich=True):
 def gen_world(rng, max_layers=4, max_tests=7, opts='any', faults=True, rich=True):
     n = rng.randint(0, max_layers)
     layers = gen_layers(rng, n, faults=faults)
+    if faults and n >= 2 and rng.random() < 0.12:
+        # a tear-down pass that meets an error and then a layer that cannot be torn down: a derived layer whose tearDown raises
+        # over a base whose tearDown raises NotImplementedError (the derived one is torn down first)
+        cand = [i for i, L in enumerate(layers) if L['bases']]
+        if cand:
+            i = rng.choice(cand)
+            layers[i]['hooks']['tearDown'] = ['raise']
+            layers[i]['hooks'].setdefault('setUp', ['ok'])
+            b = rng.choice(layers[i]['bases'])
+            layers[b]['hooks']['tearDown'] = ['notimpl']
+            layers[b]['hooks'].setdefault('setUp', ['ok'])
     tests = [gen_test(rng, n, rich) for _ in range(rng.randint(1, max_tests))]
     options = []
     if opts == 'any':
